@@ -1,5 +1,6 @@
 import GnpyDriver.JsonUtil
 import GnpyDriver.C11
+import GnpyDriver.C19
 import GnpyModel
 /- driver handlers for property C12 (ops are named "c12.<name>") -/
 open Lean
@@ -96,7 +97,31 @@ def select (j : Json) : R Json := do
                ("n2", jList jNat (c2.map (·.2.length))), ("n3", jList jNat (c3.map (·.2.length))),
                ("n4", jList jNat (c4.map (·.2.length)))]
 
+def getDisj (d : Json) : R Gnpy.Response.Disj := do
+  return { id := ← fStr d "id", reqs := ← fList getStr d "reqs" }
+
+def jDisj (d : Gnpy.Response.Disj) : Json := jObj [("id", jStr d.id), ("reqs", jList jStr d.reqs)]
+
+/-- `deduplicate_disjunctions` -/
+def dedup (j : Json) : R Json := do
+  let ds ← fList getDisj j "disjunctions"
+  return jList jDisj (Gnpy.Sync.deduplicateDisjunctions ds)
+
+/-- `requests_aggregation(rqs, dsjn)` (group G's model) + the name every original id ends up with -/
+def aggregation (j : Json) : R Json := do
+  let arr ← getArr (← fld j "requests")
+  let rs ← (arr.zip (List.range arr.length)).mapM (fun x => C19.getAReq x.2 x.1)
+  let ds ← fList getDisj j "disjunctions"
+  let out := Gnpy.Response.requestsAggregationD rs ds
+  let tr := Gnpy.Sync.requestsAggregationT rs ds
+  return jObj [("requests", jList (fun (r : Gnpy.Response.AReq String Float) => jStr r.idStr) out.1),
+               ("parts", jList (fun (r : Gnpy.Response.AReq String Float) => jList jStr r.parts) out.1),
+               ("disjunctions", jList jDisj out.2),
+               ("traced_same", jBool (tr.1.2.map (fun d => (d.id, d.reqs)) == out.2.map (fun d => (d.id, d.reqs)))),
+               ("renamed", jList (fun (r : Gnpy.Response.AReq String Float) =>
+                  Json.arr #[jStr r.idStr, jStr (tr.2 r.idStr)]) rs)]
+
 def handlers : List (String × Handler) :=
-  [("c12.check", check), ("c12.isdisjoint", isdisjointH), ("c12.oracle", oracle), ("c12.select", select)]
+  [("c12.dedup", dedup), ("c12.aggregation", aggregation), ("c12.check", check), ("c12.isdisjoint", isdisjointH), ("c12.oracle", oracle), ("c12.select", select)]
 
 end Gnpy.Drv.C12
